@@ -5,7 +5,7 @@ open Prog
 
 theorem readFrames_full (frames row : Nat) :
     readFrames frames row none none = .unpack (frames * row) fun b => .ret (frames, b) := by
-  simp [readFrames]
+  simp [readFrames, winStart, winRem]
 
 theorem resolve_empty (fps : F32) : Window.resolve {} fps = some (none, none) := rfl
 
